@@ -80,6 +80,22 @@ Theorem packet_tlv_exact_interest : forall (sha256 : bytes -> bytes), (forall x,
 Proof. exact packet_tlv_exact_interest_thm. Qed.
 Print Assumptions packet_tlv_exact_interest.
 
+Theorem segmentation_irrelevant_interest : forall (sha256 : bytes -> bytes), (forall x, length (sha256 x) = 32%nat) ->
+  forall sign nm cfg app sg si est e,
+  let need := match app with Some _ => true | None => false end in
+  let pre := strip_digest nm in
+  let nm1 := if need then pre ++ [mkc 2 zeros32] else pre in
+  int_siginfo sg need = Ok (si, est) -> name_ok pre -> (app = None -> existsb is_digest_comp pre = false) ->
+  iconfig_ok cfg -> signer_ok sg -> signer_int_ok sg -> int_fits nm1 cfg app si est ->
+  make_interest sha256 sign nm cfg app sg = Ok e ->
+  exists svo, forall segs, concat segs = concat (e_wire e) ->
+    exists i1 c1 i2 c2,
+      read_interest sha256 (BR (concat segs) 0) = ROk i1 c1 /\ read_interest sha256 (new_wire_reader segs) = ROk i2 c2 /\
+      obs_int i1 = expected_int (e_final e) cfg app sg svo /\ obs_int i2 = expected_int (e_final e) cfg app sg svo /\
+      (0 < est -> concat c1 = concat (e_cov e) /\ concat c2 = concat (e_cov e)).
+Proof. exact interest_any_reader. Qed.
+Print Assumptions segmentation_irrelevant_interest.
+
 (* The reader refinement itself: every view of a reader kind is a view (used above for both). *)
 Theorem readers_view : forall (b : bytes) (segs : list bytes),
   View (BR b 0) b 0 /\ View (new_wire_reader segs) (concat segs) 0.
@@ -91,6 +107,11 @@ Print Assumptions readers_view.
 Theorem name_bytes_agree : forall n, name_tlv n = name_bytes n /\ (name_wf n -> name_from_bytes (name_tlv n) = Some n).
 Proof. exact (fun n => conj (name_tlv_bytes n) (fun H => eq_ind_r (fun b => name_from_bytes b = Some n) (name_from_bytes_enc n H) (name_tlv_bytes n))). Qed.
 Print Assumptions name_bytes_agree.
+
+(* ... and the standalone component encoder: ComponentFromBytes (Component.Bytes c) = c *)
+Theorem comp_bytes_roundtrip : forall c, comp_wf c -> comp_from_bytes (comp_enc c) = Some c.
+Proof. exact comp_from_bytes_enc. Qed.
+Print Assumptions comp_bytes_roundtrip.
 
 (* non-vacuity: a signed Data with a 253-byte component, content in two buffers (one empty), decoded from a 4-way split
    whose first segment holds only the outer T and L *)
